@@ -70,6 +70,10 @@ func main() {
 		runKmapbig(r, n)
 	case "kltype":
 		runKltype(r, n)
+	case "kltqc":
+		runKltqc(r, n)
+	case "kcompose":
+		runKcompose(r, n)
 	case "kearly":
 		runKearly(r, n)
 	case "k2srv":
